@@ -20,6 +20,7 @@ def rename(i, j, shape):
 
 
 STMT_CHANGES = [
+    ("drop-commented", "@@\nvar x expression\n@@\n-begin(x)\n-drop()\n+begin(x)\n"),
     ("begin->start+defer", "@@\nvar x expression\n@@\n-begin(x)\n+start(x)\n+defer stop(x)\n"),
     ("defer stop->finish", "@@\nvar x expression\n@@\n-defer stop(x)\n+defer finish(x)\n"),
     ("start;defer->scope", "@@\nvar x expression\n@@\n-start(x)\n-defer finish(x)\n+scope(x)\n"),
@@ -55,7 +56,7 @@ def gen_file(rng, with_stmt, with_imp, extra):
             arg = "%s(%s)" % (rng.choice(FN[:3]), arg)
         decls.append(rng.choice(SLOTS) % (j, "%s(%s)" % (fn, arg)))
     if with_stmt:
-        decls.append("func s1() {\n\tbegin(res)\n\twork()\n}")
+        decls.append("func s1() {\n\tbegin(res)\n\tdrop( /* why */ )\n\twork() // eol\n}")
         decls.append("func s2() {\n\tmu.Lock()\n\tx := f0(1)\n\tmu.Unlock()\n\t_ = x\n}")
         decls.append("func s3() {\n\tv := f0(q)\n\t_ = v\n}")
     imps = ""
